@@ -53,13 +53,21 @@ def gen_req(rnd, i):
 
 
 def gen_read(rnd, i):
+    if rnd.random() < 0.25:
+        # timer/data race shape: a timed read that is satisfied while its timer may fire as well, then a timed read that must wait
+        a, b = rnd.randint(1, 3), rnd.randint(1, 2)
+        peer = [['send', a]] if rnd.random() < 0.6 else [['send', 1]] * a
+        if rnd.random() < 0.3:
+            peer.append(['send', b])
+        return {'kind': rnd.choice(['client', 'fd']), 'onconnect': False, 'ondisconnect': False, 'onrequest': False, 'onprepare': True, 'nclosecb': 1,
+                'handler': [], 'actors': [{'name': 'reader', 'ops': [['NextT', a], ['NextT', b]]}], 'peer': peer, 'eagertimers': True, 'focus': True}
     need = [rnd.randint(1, 3) for _ in range(rnd.randint(1, 3))]
     ops = []
     for n in need:
         ops.append([rnd.choice(['Next', 'NextT', 'NextT']), n])
     total = sum(need)
     peer = []
-    left = total + rnd.choice([0, 0, 0, -1, 1])
+    left = total + rnd.choice([0, 0, -1, -1, 1])
     while left > 0:
         k = rnd.randint(1, min(2, left))
         peer.append(['send', k])
@@ -71,10 +79,16 @@ def gen_read(rnd, i):
     if rnd.random() < 0.3:
         actors += _closers(rnd, 1, 1)
     return {'kind': rnd.choice(['client', 'client', 'fd']), 'onconnect': False, 'ondisconnect': False, 'onrequest': False,
-            'onprepare': True, 'nclosecb': 1, 'handler': [], 'actors': actors, 'peer': peer}
+            'onprepare': True, 'nclosecb': 1, 'handler': [], 'actors': actors, 'peer': peer, 'eagertimers': rnd.random() < 0.5}
 
 
 def gen_flush(rnd, i):
+    if rnd.random() < 0.15:
+        # timeout-then-flush shape: a timed flush far above the socket buffer, a peer that drains it eventually, then another large flush
+        ops = [['WriteT', rnd.choice([200000, 300000])], [rnd.choice(['Write', 'WriteT']), rnd.choice([200000, 300000])]]
+        peer = [['drain', rnd.choice([65536, 200000, 400000])] for _ in range(rnd.choice([8, 30, 60, 120]))]
+        return {'kind': rnd.choice(['client', 'fd']), 'onconnect': False, 'ondisconnect': False, 'onrequest': False, 'onprepare': True,
+                'nclosecb': 1, 'handler': [], 'actors': [{'name': 'flusher', 'ops': ops}], 'peer': peer, 'sndbuf': 4096, 'focus': True}
     big = rnd.random() < 0.8
     ops = []
     for _ in range(rnd.randint(1, 3)):
@@ -291,6 +305,11 @@ def known_match(findings, v, res):
             starters = [e['g'] for e in evs[:v['line']] if e['e'] == 'CbStart' and e['k'].startswith('close')]
             if not starters or any(g.startswith(npre) for g in starters):
                 continue
+        pe = sig.get('prior_event')
+        if pe and not any(all(e.get(k) == val for k, val in pe.items()) for e in evs[:v['line']]):
+            continue
+        if sig.get('err_regex') and not re.search(sig['err_regex'], ev.get('err', '')):
+            continue
         pre = sig.get('closecb_by_prefix')
         if pre and not any(e['e'] == 'CbStart' and e['k'].startswith('close') and e['g'].startswith(pre) for e in evs[:v['line']]):
             continue
@@ -320,7 +339,10 @@ def main(pid, tier, replay_path=None):
             res, crashed = run_scenarios(sc, binary, scs, 'a', procs=12)
             if not replay_path:
                 # single-stall exploration over a sample of this property's own family
-                base = [s for s in scs if s['id'].startswith(fam + '-')][:60 if tier == 'quick' else 1200]
+                own = [s for s in scs if s['id'].startswith(fam + '-')]
+                nb = 60 if tier == 'quick' else 1200
+                focus = [s for s in own if s.get('focus')][:nb // 2]      # shapes written for a known narrow window get half of the budget
+                base = focus + [s for s in own if not s.get('focus')][:nb - len(focus)]
                 extra = stall_variants(base, res, per_scenario=40 if tier == 'quick' else 80, rnd=random.Random(seed), skip_actors=())
                 res2, crashed2 = run_scenarios(sc, binary, extra, 'b', procs=12)
                 scs = scs + extra
@@ -330,19 +352,34 @@ def main(pid, tier, replay_path=None):
             vs, nlines, st = validate(sc, res, order, 'a')
             byid = {s['id']: s for s in scs}
             stuck = sum(1 for r in res.values() if r['info'].get('stuck'))
+            other_crashes = 0
             for s0, o in crashed:
-                # the test process died while running this scenario (fatal error / panic outside any recover)
+                # the test process died while running this scenario (fatal error / panic outside any recover): it belongs to the
+                # property whose scenario family was running (a C08 run also executes a sample of the other families)
+                owner = next((p_ for p_, f_ in FAMILY_OF.items() if s0['id'].split('~')[0].startswith(f_ + '-')), pid)
+                if owner != pid:
+                    other_crashes += 1
+                    vlib.log('note: test process died in a scenario of another property\'s family (%s, %s); not judged here:\n%s' % (s0['id'], owner, o[-600:]))
+                    continue
+                kf = next((f for f in findings if f.get('signature', {}).get('crash_regex') and re.search(f['signature']['crash_regex'], o, re.S)), None)
+                if kf:
+                    known_hit.setdefault(kf['id'], kf)
+                    continue
                 p = vlib.save_replay(pid, '%s_crash%d' % (tier, len(violations)), {'property': pid, 'scenario': s0, 'output': o})
-                if pid == 'C05' or 'panic' in o:
-                    violations.append(p)
-                    vlib.log('test process died in scenario %s:\n%s' % (s0['id'], o[-1500:]))
+                violations.append(p)
+                vlib.log('test process died in scenario %s:\n%s' % (s0['id'], o[-1500:]))
             mine = [v for v in vs if v['rule'].startswith(pid + '.')]
             seen = set()
-            for v in mine:
+            known_from = {}   # scenario -> first line explained by a known finding: what follows in that execution is its consequence
+            for v in sorted(mine, key=lambda v: (v['scenario'], v['line'])):
                 r = res[v['scenario']]
+                if v['scenario'] in known_from and v['line'] >= known_from[v['scenario']]:
+                    continue
                 kf = known_match(findings, v, r)
                 if kf:
                     known_hit.setdefault(kf['id'], kf)
+                    if kf.get('signature', {}).get('poisons_rest'):
+                        known_from[v['scenario']] = v['line']
                     continue
                 key = (v['scenario'], v['rule'])
                 if key in seen:
